@@ -310,13 +310,23 @@ def zexpr(n):
             r = {'Add': lambda: za + zb, 'Sub': lambda: za - zb, 'Mul': lambda: za * zb, 'BitAnd': lambda: za & zb,
                  'BitOr': lambda: za | zb, 'BitXor': lambda: za ^ zb}[op.replace('Unchecked', '')]()
     elif op in ('OvfAdd', 'OvfSub', 'OvfMul'):
+        # overflow predicates written with standard bit-vector operators only (portable to cvc5)
         a, b, w, s = A; za, zb = zval(a, w), zval(b, w)
         if op == 'OvfAdd':
-            r = z3.Or(z3.Not(z3.BVAddNoOverflow(za, zb, True)), z3.Not(z3.BVAddNoUnderflow(za, zb))) if s else z3.Not(z3.BVAddNoOverflow(za, zb, False))
+            if s:
+                x = z3.SignExt(1, za) + z3.SignExt(1, zb); r = z3.Extract(w, w, x) != z3.Extract(w - 1, w - 1, x)
+            else:
+                r = z3.Extract(w, w, z3.ZeroExt(1, za) + z3.ZeroExt(1, zb)) == z3.BitVecVal(1, 1)
         elif op == 'OvfSub':
-            r = z3.Or(z3.Not(z3.BVSubNoOverflow(za, zb)), z3.Not(z3.BVSubNoUnderflow(za, zb, True))) if s else z3.Not(z3.BVSubNoUnderflow(za, zb, False))
+            if s:
+                x = z3.SignExt(1, za) - z3.SignExt(1, zb); r = z3.Extract(w, w, x) != z3.Extract(w - 1, w - 1, x)
+            else:
+                r = z3.ULT(za, zb)
         else:
-            r = z3.Or(z3.Not(z3.BVMulNoOverflow(za, zb, True)), z3.Not(z3.BVMulNoUnderflow(za, zb))) if s else z3.Not(z3.BVMulNoOverflow(za, zb, False))
+            if s:
+                x = z3.SignExt(w, za) * z3.SignExt(w, zb); r = x != z3.SignExt(w, z3.Extract(w - 1, 0, x))
+            else:
+                r = z3.Extract(2 * w - 1, w, z3.ZeroExt(w, za) * z3.ZeroExt(w, zb)) != z3.BitVecVal(0, w)
     elif op == 'BNot': r = z3.Not(zexpr(A[0]))
     elif op in ('BAnd', 'BOr', 'BXor', 'BNe', 'BEq'):
         za, zb = zexpr(A[0]), zexpr(A[1])
